@@ -50,6 +50,8 @@ extern char g_ch;                          /* rot13: the input byte at g_k */
   __CPROVER_requires(ret->size == 0 && ret->cap <= VSTR_MAXCAP && ret->cap >= (need)) \
   __CPROVER_requires(__CPROVER_is_fresh(ret->data, ret->cap))
 /* result string being appended to, room for `room` more characters */
+/* an early `return string();`: the result is the empty string */
+#define C11_RET_EMPTY(ret) ((ret)->size = 0)
 #define RET_APPEND_REQ(room) \
   __CPROVER_requires(__CPROVER_is_fresh(ret, sizeof(vstr))) \
   __CPROVER_requires(ret->cap <= VSTR_MAXCAP && ret->size <= ret->cap && (room) <= ret->cap - ret->size) \
